@@ -8,8 +8,8 @@
 #define XV_DT_CNT_OK(c) ((c) >= 0 && (c) < XV_DT_CNT_MAX)
 
 /* ---- ghost resource counters shared by both parts */
-int xv_regs;        /* live xpoll descriptor registrations (xpoll_fd_reg_add: +1, xpoll_fd_reg_del: -1)                  */
-int xv_timers;      /* live timers of the timer manager(s) (schedule: +1, cancel/ack of a live timer: -1)               */
+/* xv_regs:   live xpoll descriptor registrations (xpoll_fd_reg_add: +1, xpoll_fd_reg_del: -1)   -- field of xv_xp, below   */
+/* xv_timers: live timers of the timer manager (schedule: +1, cancel/ack of a live timer: -1)   -- field of xv_tm, below   */
 int xv_tmgrs;       /* live timer managers (timer_mgr_create success: +1, timer_mgr_destroy(non-NULL): -1)              */
 int xv_xpolls;      /* live xpoll instances                                                                             */
 int xv_queries;     /* live resolver queries (xcm_dns_resolve success: +1, xcm_dns_query_destroy(non-NULL): -1)          */
@@ -27,7 +27,6 @@ int xv_poll_fd; int xv_poll_timeout; short xv_poll_events; int xv_poll_rc;   /* 
 #define Q_TERMINAL(st) ((st) == query_state_failed || (st) == query_state_successful)
 /* representation invariant of a query object */
 #define Q_OK(q) (Q_STATE_OK(q) && ((q)->state == query_state_successful ==> ((q)->ips_len >= 1 && (q)->ips_len <= XCM_DNS_MAX_RESULT_SIZE)))
-#define Q_GHOST_OK (XV_DT_CNT_OK(xv_queries) && XV_DT_CNT_OK(xv_regs) && XV_DT_CNT_OK(xv_timers) && XV_DT_CNT_OK(xv_tmgrs))
 
 
 /* ---- part TC (tconnect.c) ------------------------------------------------------------------------------------------
@@ -37,31 +36,83 @@ void *xv_trk;
  * An "attempt on address i" is everything done while track->ip_idx == i: tcp_opts_effectuate, [bind], connect.  A step that
  * fails (effectuate < 0, bind < 0, connect < 0 with errno != EINPROGRESS) is a FAILED attempt with that errno. */
 int xv_ai;
-unsigned xv_att_begun;        /* attempts begun on address xv_ai (= calls of tcp_opts_effectuate while ip_idx == xv_ai)          */
-unsigned xv_att_failed;       /* failed steps while ip_idx == xv_ai                                                               */
-int xv_att_errno;             /* errno of the last of them                                                                        */
-unsigned xv_att_conn;         /* connect() attempts (real address, not AF_UNSPEC) while ip_idx == xv_ai                            */
-int xv_att_conn_rc, xv_att_conn_errno, xv_att_conn_fd;   /* the last of them: result, errno (0 on success), descriptor            */
-const void *xv_att_conn_src;  /* the struct xcm_addr_ip its address was built from (source of the last tp_ip_to_sockaddr)        */
-/* log over ALL attempts of the track */
-unsigned xv_fail_n;           /* failed steps so far                                                                              */
-int xv_fail_errno;            /* errno of the last failed step = "the errno of the last failed attempt"                           */
-unsigned xv_conn_n;           /* connect() attempts so far                                                                        */
-int xv_conn_idx, xv_conn_fd, xv_conn_rc, xv_conn_errno;   /* the last one: ip_idx at the time, descriptor, result                  */
-unsigned xv_disc_n; int xv_disc_fd;                       /* connect(AF_UNSPEC) calls ("disconnect", track_abort_connect)          */
+/* The ghost variables below are FIELDS of a few structs (one struct = one assigns target: DFCC's write-set inclusion check is
+ * quadratic in the number of targets; 70 separate globals made track_connect_next a 6-minute job). */
+struct xv_arow_s {            /* row of the tracked address xv_ai */
+    unsigned begun;           /* attempts begun on address xv_ai (= calls of tcp_opts_effectuate while ip_idx == xv_ai)           */
+    unsigned failed;          /* failed steps while ip_idx == xv_ai                                                                */
+    int err;                  /* errno of the last of them                                                                         */
+    unsigned conn;            /* connect() attempts (real address, not AF_UNSPEC) while ip_idx == xv_ai                             */
+    int conn_rc, conn_errno, conn_fd;   /* the last of them: result, errno (0 on success), descriptor                              */
+    const void *conn_src;     /* the struct xcm_addr_ip its address was built from (source of the last tp_ip_to_sockaddr)         */
+} xv_arow;
+#define xv_att_begun xv_arow.begun
+#define xv_att_failed xv_arow.failed
+#define xv_att_errno xv_arow.err
+#define xv_att_conn xv_arow.conn
+#define xv_att_conn_rc xv_arow.conn_rc
+#define xv_att_conn_errno xv_arow.conn_errno
+#define xv_att_conn_fd xv_arow.conn_fd
+#define xv_att_conn_src xv_arow.conn_src
+struct xv_fail_s {            /* log over ALL attempts of the track */
+    unsigned n;               /* failed steps so far                                                                               */
+    int err;                  /* errno of the last failed step = "the errno of the last failed attempt"                            */
+} xv_fail;
+#define xv_fail_n xv_fail.n
+#define xv_fail_errno xv_fail.err
+struct xv_conn_s {
+    unsigned n;               /* connect() attempts so far                                                                         */
+    int idx, fd, rc, err;     /* the last one: ip_idx at the time, descriptor, result, errno                                        */
+    unsigned disc_n; int disc_fd;       /* connect(AF_UNSPEC) calls ("disconnect", track_abort_connect)                            */
+    unsigned unprepared;      /* connect() attempts on a descriptor that did NOT have &track->tcp_opts applied successfully before  */
+    unsigned unbound;         /* connect() attempts on a descriptor that was NOT bound to (local_ip, local_port) before             */
+    unsigned wrong_addr;      /* connect() attempts whose address was not built from &remote_ips[ip_idx], remote_port              */
+    unsigned unregistered;    /* connect() attempts made while the descriptor was not registered for EPOLLOUT (C04)                */
+} xv_conn;
+#define xv_conn_n xv_conn.n
+#define xv_conn_idx xv_conn.idx
+#define xv_conn_fd xv_conn.fd
+#define xv_conn_rc xv_conn.rc
+#define xv_conn_errno xv_conn.err
+#define xv_disc_n xv_conn.disc_n
+#define xv_disc_fd xv_conn.disc_fd
+#define xv_unprepared xv_conn.unprepared
+#define xv_unbound xv_conn.unbound
+#define xv_wrong_addr xv_conn.wrong_addr
+#define xv_unregistered xv_conn.unregistered
 /* order of the steps of one attempt: descriptor on which the options snapshot was applied / the local address was bound
  * since the attempt began (-1: none); reset by every event that ends an attempt */
-int xv_pre_eff_fd, xv_pre_bind_fd;
-unsigned xv_unprepared;       /* connect() attempts on a descriptor that did NOT have &track->tcp_opts applied successfully before */
-unsigned xv_unbound;          /* connect() attempts on a descriptor that was NOT bound to (local_ip, local_port) before            */
-unsigned xv_wrong_addr;       /* connect() attempts whose address was not built from &remote_ips[ip_idx], remote_port             */
-unsigned xv_unregistered;     /* connect() attempts made while the descriptor was not registered for EPOLLOUT (C04)               */
+struct xv_pre_s { int eff_fd, bind_fd; } xv_pre;
+#define xv_pre_eff_fd xv_pre.eff_fd
+#define xv_pre_bind_fd xv_pre.bind_fd
 /* other modules, last call */
-unsigned xv_eff_n; int xv_eff_fd, xv_eff_rc; const void *xv_eff_opts;                       /* tcp_opts_effectuate                */
-const void *xv_sa_src; const void *xv_sa_dst; uint16_t xv_sa_port; int64_t xv_sa_scope;     /* tp_ip_to_sockaddr                  */
-int xv_reg_fd, xv_reg_event, xv_reg_id; int xv_del_id;                                      /* xpoll_fd_reg_add / _del            */
-int64_t xv_sched_id; double xv_sched_timeout; const void *xv_sched_mgr;                     /* timer_mgr_schedule                 */
-_Bool xv_expired_ret; unsigned xv_expired_n;                                                /* timer_mgr_has_expired              */
-unsigned xv_est_n; int xv_est_fd, xv_est_rc, xv_est_errno;                                  /* ut_established                     */
+struct xv_eff_s { unsigned n; int fd, rc; const void *opts; } xv_eff;                      /* tcp_opts_effectuate                */
+#define xv_eff_n xv_eff.n
+#define xv_eff_fd xv_eff.fd
+#define xv_eff_rc xv_eff.rc
+#define xv_eff_opts xv_eff.opts
+struct xv_sa_s { const void *src; const void *dst; uint16_t port; int64_t scope; } xv_sa;  /* tp_ip_to_sockaddr                  */
+#define xv_sa_src xv_sa.src
+#define xv_sa_dst xv_sa.dst
+#define xv_sa_port xv_sa.port
+#define xv_sa_scope xv_sa.scope
+struct xv_xp_s { int regs; int reg_fd, reg_event, reg_id; int del_id; } xv_xp;             /* xpoll_fd_reg_add / _del            */
+#define xv_regs xv_xp.regs
+#define xv_reg_fd xv_xp.reg_fd
+#define xv_reg_event xv_xp.reg_event
+#define xv_reg_id xv_xp.reg_id
+#define xv_del_id xv_xp.del_id
+struct xv_tm_s { int timers; int64_t sched_id; double sched_timeout; const void *sched_mgr; _Bool expired_ret; unsigned expired_n; } xv_tm;   /* timer_mgr_* */
+#define xv_timers xv_tm.timers
+#define xv_sched_id xv_tm.sched_id
+#define xv_sched_timeout xv_tm.sched_timeout
+#define xv_sched_mgr xv_tm.sched_mgr
+#define xv_expired_ret xv_tm.expired_ret
+#define xv_expired_n xv_tm.expired_n
+struct xv_est_s { unsigned n; int fd, rc, err; } xv_est;                                    /* ut_established                     */
+#define xv_est_n xv_est.n
+#define xv_est_fd xv_est.fd
+#define xv_est_rc xv_est.rc
+#define xv_est_errno xv_est.err
 
 #endif
